@@ -1051,6 +1051,10 @@ def run_task(name, kw, ctx):
         out_of_range = st.one_of(st.sampled_from(INT_OUT), st.integers(1 << 64, 1 << 80), st.integers(-(1 << 80), -(1 << 63) - 1)).map(lambda n: {"p": "int", "x": n})
         strat = _weighted((8, node(0)), (4, node(1)), (4, node(2)), (4, node(deep)), (1, out_of_range)).map(lambda n: {"kind": "build", "node": n})
 
+        ctx.note("+-inf is never generated (both APIs reject it alike); NaN is generated in about 1 float leaf of 8")
+        ctx.note("Item.from_value(float): type not pinned by the statement; F4 or F8 accepted, lossy F4 picks counted in class from_value-float-lossy")
+        ctx.note("str input for B/A/J only with characters of the type's repertoire (B: ASCII); tuple/bytearray/int-for-float inputs are not accepted forms and not generated")
+
         def body(case):
             classes, nt = build_classes(case["node"])
             info = {}
